@@ -135,7 +135,11 @@ class HeapMixin:
             return self.any_getattr(v, attr)
         if isinstance(v, VCallback):
             dflt = (v.spec.get(attr) or (v.spec if v.spec.get("inherit") else {})) if isinstance(v.spec, dict) else {}
-            return VCallback(f"{v.name}.{attr}", self.cb_spec(f"{v.name}.{attr}", dflt))
+            sp_ = self.cb_spec(f"{v.name}.{attr}", dflt)
+            if isinstance(sp_, dict) and sp_.get("function"):
+                from .calls import VCallbackFn
+                return VCallbackFn(f"{v.name}.{attr}", sp_, v)
+            return VCallback(f"{v.name}.{attr}", sp_)
         raise E.Unsupported(f"getattr {v!r}.{attr}")
 
     AST_LISTS = ("args", "keywords", "elts", "values", "ops", "comparators", "generators", "ifs", "keys")
@@ -352,6 +356,10 @@ class HeapMixin:
             return z3.Function("any_of_" + v.ename, v.t.sort(), AnySort)(v.t)
         if isinstance(v, VRef):
             return z3.Function("any_of_ref", z3.IntSort(), AnySort)(z3.IntVal(v.oid))
+        if isinstance(v, VCallback):
+            return z3.Const(f"any_cb:{v.name}", AnySort)
+        if isinstance(v, VClass):
+            return z3.Const(f"any_class:{v.name}", AnySort)
         if isinstance(v, VTuple):
             t = z3.Const("any_unit", AnySort)
             f = z3.Function("any_pair", AnySort, AnySort, AnySort)
